@@ -214,7 +214,7 @@ func init() {
 				return v, outcome(e)
 			}
 			e.p.Stop()
-			e.p.Stop() // already stopped: must be harmless
+			e.p.Stop()                   // already stopped: must be harmless
 			e.p.Send(ctx, e.job(3, nil)) // after Stop: dropped or run once, never a panic
 			e.p.Run(ctx)
 			e.p.Send(ctx, e.job(2, nil))
@@ -323,6 +323,68 @@ func init() {
 			e.p.Stop()
 			e.stopped.Set(1)
 			wg.Wait()
+			vrt.Quiesce()
+			if v := e.checkAtMostOnce(); v != "" {
+				return v, outcome(e)
+			}
+			return leak(), outcome(e)
+		}}
+	})
+
+	// stop-busy-restart: as stop-busy, but a flusher of the deferred list is already parked when Stop and
+	// the late sender race; then a second life of the pool drains its deferred list: nothing accepted in
+	// the first life may start in the second.
+	conc.Register("pool-stop-busy-restart", func(p string) *conc.Scenario {
+		// the late sender's time-out is the subject: it may fire at any moment at no cost
+		o := func(o *vrt.Options) { opts(o); o.FreeTimers = true }
+		return &conc.Scenario{Options: o, Body: func() (string, string) {
+			vrt.SetBranching(false)
+			e := newEnv(1, 9)
+			ctx := context.Background()
+			e.p.Run(ctx)
+			gate := make(chan struct{})
+			e.p.Send(ctx, e.job(0, gate))
+			vrt.Quiesce()
+			e.p.Send(ctx, e.job(1, nil))
+			e.p.Send(ctx, e.job(2, nil))
+			e.p.Send(ctx, e.job(3, nil)) // deferred: its flusher parks on the full channel
+			vrt.SetBranching(true)
+			var wg sync.WaitGroup
+			wg.Add(2)
+			vrt.GoNamed("sender", func() { e.p.Send(ctx, e.job(4, nil)); wg.Done() })
+			vrt.GoNamed("gate-opener", func() { vrt.Close(gate); wg.Done() })
+			e.p.Stop()
+			e.stopped.Set(1)
+			wg.Wait()
+			vrt.Quiesce()
+			if v := e.checkAtMostOnce(); v != "" {
+				return v, outcome(e)
+			}
+			vrt.SetBranching(false)
+			var first [5]int64
+			for i := range first {
+				first[i] = e.runs[i].Get()
+			}
+			e.stopped.Set(0)
+			e.p.Run(ctx)
+			gate2 := make(chan struct{})
+			e.p.Send(ctx, e.job(5, gate2))
+			vrt.Quiesce()
+			e.p.Send(ctx, e.job(6, nil))
+			e.p.Send(ctx, e.job(7, nil))
+			e.p.Send(ctx, e.job(8, nil)) // deferred again
+			vrt.Close(gate2)
+			vrt.Quiesce()
+			for i := range first {
+				if e.runs[i].Get() != first[i] {
+					return fmt.Sprintf("job-started-after-stop: job %d, handed to Send before Stop, started in the pool's next life (after that Stop had returned)", i), outcome(e)
+				}
+			}
+			if v := e.checkOnce(5, 9); v != "" {
+				return v, outcome(e)
+			}
+			e.p.Stop()
+			e.stopped.Set(1)
 			vrt.Quiesce()
 			if v := e.checkAtMostOnce(); v != "" {
 				return v, outcome(e)
